@@ -183,6 +183,7 @@ func c20Run(inI interface{}, env *Env) *Failure {
 		missing  []string
 		fired    int
 		invalid  int
+		overrides = map[string]string{}
 	)
 	res := env.Sim(SimOpts{MaxSteps: 100000, FairSteps: 50000}, func() {
 		workers.MaxJob = in.MaxJob
@@ -228,6 +229,20 @@ func c20Run(inI interface{}, env *Env) *Failure {
 				panic(harnessTrouble{err.Error()})
 			}
 			for k, v := range std {
+				expected[k] = v
+			}
+			if in.Second && fi%2 == 0 && len(std) > 0 {
+				overrides[sortedNamesS(std)[0]] = "SECOND-LOAD-VALUE"
+			}
+		}
+		if in.Second && len(overrides) > 0 {
+			// the second load also brings new values for keys the first one loaded: every key
+			// of every file of a load translates to the value in *that* file afterwards
+			data, _ := json.Marshal(c20Nest(overrides, nil))
+			if err := mem.WriteFile("second/zz-override.json", data, filesystem.DefaultUnixFileMode); err != nil {
+				panic(harnessTrouble{err.Error()})
+			}
+			for k, v := range overrides {
 				expected[k] = v
 			}
 		}
